@@ -114,7 +114,7 @@ func (in *Interp) exec(fr *frame, ins ssa.Instruction) {
 		if !in.guard(Cmp("bvsle", n, c)) {
 			in.goPanic("makeslice: cap out of range in " + fr.fn.String())
 		}
-		in.allocs = append(in.allocs, n)
+		in.allocs = append(in.allocs, allocRec{IArith("*", n, IntC(elemBytes(et))), fr.fn.String()})
 		if isScalar(et) {
 			fr.loc[x] = &SliceV{obj: &ArrObj{node: zeroArr(width(et)), ew: width(et)}, off: IX(0), len: n, cap: c}
 		} else {
@@ -129,7 +129,6 @@ func (in *Interp) exec(fr *frame, ins ssa.Instruction) {
 				conds[K+1] = ICmp("<", IX(int64(K)), n)
 				k = in.choose(conds)
 				if k == K+1 {
-					in.allocs = append(in.allocs, n)
 					in.end("bound", fmt.Sprintf("slice of %s with more than %d elements in %s (outside the harness bound)", et, K, fr.fn))
 				}
 			}
@@ -862,4 +861,34 @@ func (in *Interp) lookup(fr *frame, x *ssa.Lookup) Value {
 		return TupleV{res, Bool(found)}
 	}
 	return res
+}
+
+// elemBytes is the size of one element as Go would allocate it (amd64).
+func elemBytes(t types.Type) int64 {
+	switch u := t.Underlying().(type) {
+	case *types.Basic:
+		switch w := width(t); {
+		case w == 0 || w == 8:
+			return 1
+		case w > 0:
+			return int64(w / 8)
+		case u.Info()&types.IsString != 0:
+			return 16
+		}
+		return 8
+	case *types.Interface, *types.Slice:
+		if _, ok := u.(*types.Slice); ok {
+			return 24
+		}
+		return 16
+	case *types.Struct:
+		n := int64(0)
+		for i := 0; i < u.NumFields(); i++ {
+			n += elemBytes(u.Field(i).Type())
+		}
+		return n
+	case *types.Array:
+		return u.Len() * elemBytes(u.Elem())
+	}
+	return 8
 }
